@@ -354,6 +354,9 @@ class _LocalDatePatternParser(_IPatternParser[LocalDate]):
             # Use the year from the template value, possibly checking the era.
             if not used_fields.has_any(_PatternFields.YEAR_OF_ERA):
                 self._year = self._template_value.year
+                # The calendar may have been parsed from the text; the template's year need not exist in it.
+                if self._year > self._calendar.max_year or self._year < self._calendar.min_year:
+                    return ParseResult._field_value_out_of_range_post_parse(text, self._year, "u", eventual_result_type)
                 if used_fields.has_any(_PatternFields.ERA) and self.__era != self._calendar._get_era(self._year):
                     return ParseResult._inconsistent_values(text, "g", "u", eventual_result_type)
                 return None
@@ -364,6 +367,10 @@ class _LocalDatePatternParser(_IPatternParser[LocalDate]):
             assert self.__era is not None
 
             # After this point, Era is definitely non-null.
+
+            # The calendar may have been parsed from the text; the template's era need not be one of its eras.
+            if self.__era not in self._calendar.eras():
+                return ParseResult._year_era_out_of_range(text, self._year_of_era, self.__era, self._calendar)
 
             if used_fields.has_any(_PatternFields.YEAR_TWO_DIGITS):
                 century: int = _towards_zero_division(self._template_value.year_of_era, 100)
